@@ -1,1 +1,615 @@
-From Coq Require Import ZArith List.
+(* C16, layers 2 and 3 of the round trip: tokens and attributes of the serialiser's output are read
+   back exactly (layer 2), and parse (toString e) returns e up to the recorded positions for every
+   tree of the class of the property (layer 3). *)
+From Coq Require Import ZArith List Bool Lia ZifyBool.
+From Xml Require Import Gen_Xml XmlSpec XmlModel XmlProofsCodec XmlProofsScan.
+Import ListNotations.
+Local Open Scope Z_scope.
+Local Open Scope bool_scope.
+
+Ltac neqb H := rewrite (proj2 (Z.eqb_neq _ _) H).
+
+(* ---- bytes -------------------------------------------------------------------------------- *)
+
+Lemma name_char_facts : forall c, name_char c = true ->
+  c <> 0 /\ name_stop c = false /\ c <> 60 /\ c <> 62 /\ c <> 61 /\ c <> 34 /\ c <> 39 /\ c <> 47 /\ c <> 33 /\ c <> 63
+  /\ is_space c = false /\ c <> 13 /\ c <> 10 /\ c <> 32.
+Proof. intros c H. unfold name_char in H. unfold name_stop, is_space. lia. Qed.
+
+Lemma bytes_eqb_eq : forall a b, bytes_eqb a b = true <-> a = b.
+Proof.
+  unfold bytes_eqb. induction a as [|x a IH]; intros [|y b]; cbn [length combine forallb fst snd Nat.eqb]; split; intros H;
+    try reflexivity; try discriminate.
+  - apply andb_prop in H. destruct H as [H1 H2]. apply andb_prop in H2. destruct H2 as [H2 H3].
+    apply Z.eqb_eq in H2. subst y. f_equal. apply IH. rewrite H1, H3. reflexivity.
+  - inversion H; subst. rewrite Z.eqb_refl. cbn [andb].
+    assert (X : b = b) by reflexivity. apply IH in X. apply andb_prop in X. destruct X as [X1 X2].
+    rewrite X1, X2. reflexivity.
+Qed.
+
+(* ---- the white-space scanner on the serialiser's output ----------------------------------- *)
+
+Lemma skipSp_stay : forall c r o l s, c <> 13 -> c <> 10 -> c <> 60 -> is_space c = false ->
+  skipSp false (c :: r) o l s = Ok (mkPos (c :: r) o l s).
+Proof. intros c r o l s H13 H10 H60 Hs. cbn [skipSp]. neqb H13. neqb H10. neqb H60. rewrite Hs. reflexivity. Qed.
+
+Lemma skipSp_lt_stay : forall c1 r o l s, c1 <> 33 ->
+  skipSp false (60 :: c1 :: r) o l s = Ok (mkPos (60 :: c1 :: r) o l s).
+Proof. intros c1 r o l s H. cbn [skipSp]. cbn [Z.eqb Pos.eqb]. neqb H. reflexivity. Qed.
+
+Lemma skipSp_space : forall c r o l s, is_space c = true -> c <> 13 -> c <> 10 ->
+  skipSp false (c :: r) o l s = skipSp false r (o + 1) l s.
+Proof.
+  intros c r o l s Hs H13 H10. cbn [skipSp]. neqb H13. neqb H10.
+  assert (H60 : c <> 60) by (intro; subst; discriminate). neqb H60. rewrite Hs. reflexivity.
+Qed.
+
+(* ---- scan on a prefix without stop bytes -------------------------------------------------- *)
+
+Lemma scan_app : forall stop a c b, Forall (fun x => x <> 0 /\ stop x = false) a -> (c = 0 \/ stop c = true) ->
+  scan stop (a ++ c :: b) = Some (a, c :: b).
+Proof.
+  intros stop. induction a as [|x a IH]; intros c b F C.
+  - cbn [app scan]. destruct C as [C|C]; [subst; reflexivity|rewrite C, orb_true_r; reflexivity].
+  - inversion F as [|? ? [H0 Hs] F']; subst. cbn [app scan]. neqb H0. rewrite Hs. cbn [orb].
+    rewrite (IH c b F' C). reflexivity.
+Qed.
+
+Lemma wf_name_forall : forall nm, forallb name_char nm = true -> Forall (fun x => x <> 0 /\ name_stop x = false) nm.
+Proof.
+  intros nm H. rewrite forallb_forall in H. apply Forall_forall. intros x Hx.
+  destruct (name_char_facts x (H x Hx)) as (A & B & _). split; assumption.
+Qed.
+
+Lemma wf_name_split : forall nm, wf_name nm = true -> exists x nm', nm = x :: nm' /\ name_char x = true /\ forallb name_char nm = true.
+Proof.
+  intros [|x nm'] H; unfold wf_name in H; [discriminate|]. cbn [negb andb] in H.
+  exists x, nm'. split; [reflexivity|]. split; [|exact H]. cbn [forallb] in H. apply andb_prop in H. tauto.
+Qed.
+
+(* ---- tokens ------------------------------------------------------------------------------- *)
+
+(* a name followed by one of the bytes that end it *)
+Lemma readToken_name : forall p nm c z, rest p = nm ++ c :: z -> wf_name nm = true -> name_stop c = true ->
+  exists tk q, readToken p = Ok (tk, q) /\ tty tk = TName /\ tval tk = nm /\ rest q = c :: z.
+Proof.
+  intros [r o l s] nm c z R W C. cbn [rest] in R. subst r.
+  destruct (wf_name_split nm W) as (x & nm' & -> & Hx & Hall).
+  destruct (name_char_facts x Hx) as (X0 & Xs & X60 & X62 & X61 & X34 & X39 & X47 & X33 & X63 & Xsp & X13 & X10 & X32).
+  unfold readToken, skipSpace. cbn [rest off line ls app]. rewrite skipSp_stay by assumption. cbn [bind rest].
+  neqb X60. neqb X62. neqb X0. neqb X61. neqb X34. neqb X39. cbn [orb]. neqb X47.
+  unfold readName. cbn [rest].
+  change (x :: nm' ++ c :: z) with ((x :: nm') ++ c :: z).
+  rewrite (scan_app name_stop (x :: nm') c z (wf_name_forall _ Hall) (or_intror C)).
+  eexists. eexists. split; [reflexivity|]. cbn [tty tval adv rest]. auto.
+Qed.
+
+Lemma readToken_eq : forall p z, rest p = 61 :: z ->
+  exists tk q, readToken p = Ok (tk, q) /\ tty tk = TEq /\ rest q = z.
+Proof.
+  intros [r o l s] z R. cbn [rest] in R. subst r.
+  unfold readToken, skipSpace. cbn [rest off line ls]. rewrite skipSp_stay by (try discriminate; reflexivity).
+  cbn [bind rest]. cbn [Z.eqb Pos.eqb].
+  eexists. eexists. split; [reflexivity|]. cbn [tty adv rest]. auto.
+Qed.
+
+Lemma readToken_gt : forall p z, rest p = 62 :: z ->
+  exists tk q, readToken p = Ok (tk, q) /\ tty tk = TTagEnd /\ rest q = z.
+Proof.
+  intros [r o l s] z R. cbn [rest] in R. subst r.
+  unfold readToken, skipSpace. cbn [rest off line ls]. rewrite skipSp_stay by (try discriminate; reflexivity).
+  cbn [bind rest]. cbn [Z.eqb Pos.eqb].
+  eexists. eexists. split; [reflexivity|]. cbn [tty adv rest]. auto.
+Qed.
+
+Lemma readToken_empty_end : forall p z, rest p = 47 :: 62 :: z ->
+  exists tk q, readToken p = Ok (tk, q) /\ tty tk = TEmptyEnd /\ rest q = z.
+Proof.
+  intros [r o l s] z R. cbn [rest] in R. subst r.
+  unfold readToken, skipSpace. cbn [rest off line ls]. rewrite skipSp_stay by (try discriminate; reflexivity).
+  cbn [bind rest]. cbn [Z.eqb Pos.eqb orb].
+  eexists. eexists. split; [reflexivity|]. cbn [tty adv rest]. auto.
+Qed.
+
+Lemma readToken_end_begin : forall p z, rest p = 60 :: 47 :: z ->
+  exists tk q, readToken p = Ok (tk, q) /\ tty tk = TEndBegin /\ rest q = z.
+Proof.
+  intros [r o l s] z R. cbn [rest] in R. subst r.
+  unfold readToken, skipSpace. cbn [rest off line ls]. rewrite skipSp_lt_stay by discriminate.
+  cbn [bind rest]. cbn [Z.eqb Pos.eqb].
+  eexists. eexists. split; [reflexivity|]. cbn [tty adv rest]. auto.
+Qed.
+
+Lemma readToken_start : forall p c1 z, rest p = 60 :: c1 :: z -> name_char c1 = true ->
+  exists tk q, readToken p = Ok (tk, q) /\ tty tk = TStart /\ rest q = c1 :: z.
+Proof.
+  intros [r o l s] c1 z R Hc. cbn [rest] in R. subst r.
+  destruct (name_char_facts c1 Hc) as (X0 & Xs & X60 & X62 & X61 & X34 & X39 & X47 & X33 & X63 & Xsp & X13 & X10 & X32).
+  unfold readToken, skipSpace. cbn [rest off line ls]. rewrite skipSp_lt_stay by assumption.
+  cbn [bind rest]. cbn [Z.eqb Pos.eqb]. neqb X47.
+  eexists. eexists. split; [reflexivity|]. cbn [tty adv rest]. auto.
+Qed.
+
+Lemma safe_out_forall : forall ev, forallb safe_out ev = true ->
+  Forall (fun x => x <> 0 /\ ((x =? 34) || (x =? 13) || (x =? 10)) = false) ev.
+Proof.
+  intros ev H. rewrite forallb_forall in H. apply Forall_forall. intros x Hx. specialize (H x Hx).
+  unfold safe_out in H. lia.
+Qed.
+
+(* layer 2: an attribute value between double quotes is read back exactly *)
+Lemma readToken_string : forall p v z, rest p = 34 :: escape v ++ 34 :: z -> wf_value v = true ->
+  exists tk q, readToken p = Ok (tk, q) /\ tty tk = TStr /\ tval tk = v /\ rest q = z.
+Proof.
+  intros [r o l s] v z R W. cbn [rest] in R. subst r.
+  unfold readToken, skipSpace. cbn [rest off line ls]. rewrite skipSp_stay by (try discriminate; reflexivity).
+  cbn [bind rest]. cbn [Z.eqb Pos.eqb orb].
+  rewrite (scan_app (fun x => (x =? 34) || (x =? 13) || (x =? 10)) (escape v) 34 z
+             (safe_out_forall _ (escape_safe v W)) (or_intror eq_refl)).
+  cbn [Z.eqb Pos.eqb negb]. rewrite (unescape_escape v W).
+  eexists. eexists. split; [reflexivity|]. cbn [tty tval adv rest]. auto.
+Qed.
+
+(* the space the serialiser puts in front of an attribute name is skipped *)
+Lemma readToken_sp_name : forall p nm c z, rest p = 32 :: nm ++ c :: z -> wf_name nm = true -> name_stop c = true ->
+  exists tk q, readToken p = Ok (tk, q) /\ tty tk = TName /\ tval tk = nm /\ rest q = c :: z.
+Proof.
+  intros [r o l s] nm c z R W C. cbn [rest] in R. subst r.
+  destruct (wf_name_split nm W) as (x & nm' & -> & Hx & Hall).
+  destruct (name_char_facts x Hx) as (X0 & Xs & X60 & X62 & X61 & X34 & X39 & X47 & X33 & X63 & Xsp & X13 & X10 & X32).
+  unfold readToken, skipSpace. cbn [rest off line ls app].
+  rewrite skipSp_space by (try discriminate; reflexivity).
+  rewrite skipSp_stay by assumption. cbn [bind rest].
+  neqb X60. neqb X62. neqb X0. neqb X61. neqb X34. neqb X39. cbn [orb]. neqb X47.
+  unfold readName. cbn [rest].
+  change (x :: nm' ++ c :: z) with ((x :: nm') ++ c :: z).
+  rewrite (scan_app name_stop (x :: nm') c z (wf_name_forall _ Hall) (or_intror C)).
+  eexists. eexists. split; [reflexivity|]. cbn [tty tval adv rest]. auto.
+Qed.
+
+(* ---- attributes --------------------------------------------------------------------------- *)
+
+Lemma attr_str_app : forall k v w, attr_str (k, v) ++ w = 32 :: k ++ 61 :: 34 :: escape v ++ 34 :: w.
+Proof. intros k v w. unfold attr_str. cbn [fst snd]. cbn [app]. rewrite <- !app_assoc. cbn [app]. rewrite <- !app_assoc. reflexivity. Qed.
+
+Definition wf_attr (kv : bytes * bytes) : bool := wf_name (fst kv) && wf_value (snd kv).
+
+Lemma attrs_rt : forall at_ acc f p ae z z',
+  forallb wf_attr at_ = true ->
+  rest p = flat_map attr_str at_ ++ z ->
+  (ae = AEmpty /\ z = 47 :: 62 :: z' \/ ae = AOpen /\ z = 62 :: z') ->
+  (length (rest p) <= f)%nat ->
+  exists q, parseAttrs f acc p = Ok (ae, fold_left (fun a kv => attr_append (fst kv) (snd kv) a) at_ acc, q) /\ rest q = z'.
+Proof.
+  induction at_ as [|[k v] at_ IH]; intros acc f p ae z z' W R Hz Hf.
+  - cbn [flat_map app] in R. cbn [fold_left].
+    destruct f as [|f]; [destruct Hz as [[_ ->]|[_ ->]]; rewrite R in Hf; cbn [length] in Hf; lia|].
+    cbn [parseAttrs]. destruct Hz as [[-> ->]|[-> ->]].
+    + destruct (readToken_empty_end p z' R) as (tk & q & E & Ty & Rq). rewrite E. cbn [bind]. rewrite Ty.
+      exists q. split; [reflexivity|exact Rq].
+    + destruct (readToken_gt p z' R) as (tk & q & E & Ty & Rq). rewrite E. cbn [bind]. rewrite Ty.
+      exists q. split; [reflexivity|exact Rq].
+  - cbn [flat_map] in R. rewrite <- app_assoc in R. rewrite attr_str_app in R.
+    cbn [forallb] in W. apply andb_prop in W. destruct W as [Wkv W]. unfold wf_attr in Wkv. cbn [fst snd] in Wkv.
+    apply andb_prop in Wkv. destruct Wkv as [Wk Wv].
+    destruct f as [|f]; [rewrite R in Hf; cbn [length] in Hf; lia|].
+    cbn [parseAttrs].
+    destruct (readToken_sp_name p k 61 _ R Wk eq_refl) as (tk & q & E & Ty & Tv & Rq). rewrite E. cbn [bind]. rewrite Ty.
+    destruct (readToken_eq q _ Rq) as (tk1 & q1 & E1 & Ty1 & Rq1). rewrite E1. cbn [bind]. rewrite Ty1.
+    destruct (readToken_string q1 v _ Rq1 Wv) as (tk2 & q2 & E2 & Ty2 & Tv2 & Rq2). rewrite E2. cbn [bind]. rewrite Ty2.
+    rewrite Tv, Tv2. cbn [fold_left fst snd].
+    apply (IH _ f q2 ae z z' W Rq2 Hz).
+    rewrite R in Hf. rewrite Rq2. cbn [length] in Hf. rewrite !app_length in Hf. cbn [length] in Hf.
+    rewrite !app_length in Hf. cbn [length] in Hf. lia.
+Qed.
+
+Lemma attr_put_fresh : forall k v l, (forall kv, In kv l -> k <> fst kv) -> attr_put k v l = l ++ [(k, v)].
+Proof.
+  induction l as [|[k' v'] l IH]; intros H; [reflexivity|].
+  cbn [attr_put]. destruct (bytes_eqb k k') eqn:E.
+  - apply bytes_eqb_eq in E. exfalso. apply (H (k', v')); [left; reflexivity|exact E].
+  - cbn [app]. f_equal. apply IH. intros kv Hin. apply H. right. exact Hin.
+Qed.
+
+Lemma distinct_keys_cons : forall k v r, distinct_keys ((k, v) :: r) = true ->
+  (forall kv, In kv r -> k <> fst kv) /\ distinct_keys r = true.
+Proof.
+  intros k v r H. cbn [distinct_keys] in H. apply andb_prop in H. destruct H as [H1 H2]. split; [|exact H2].
+  intros kv Hin Heq. apply negb_true_iff in H1.
+  assert (X : existsb (fun kv0 => bytes_eqb k (fst kv0)) r = true).
+  { apply existsb_exists. exists kv. split; [exact Hin|]. apply bytes_eqb_eq. exact Heq. }
+  congruence.
+Qed.
+
+Lemma attrs_fold : forall at_ acc, distinct_keys at_ = true ->
+  (forall kv kv', In kv at_ -> In kv' acc -> fst kv <> fst kv') ->
+  fold_left (fun a kv => attr_append (fst kv) (snd kv) a) at_ acc = acc ++ at_.
+Proof.
+  induction at_ as [|[k v] at_ IH]; intros acc D H; [cbn [fold_left]; rewrite app_nil_r; reflexivity|].
+  destruct (distinct_keys_cons _ _ _ D) as [Hk D'].
+  cbn [fold_left fst snd]. unfold attr_append. rewrite attr_put_fresh.
+  - rewrite IH; [rewrite <- app_assoc; reflexivity|exact D'|].
+    intros kv kv' Hin Hin'. apply in_app_or in Hin'. destruct Hin' as [Hin'|[<-|[]]].
+    + apply H; [right; exact Hin|exact Hin'].
+    + cbn [fst]. intro Heq. apply (Hk kv Hin). symmetry. exact Heq.
+  - intros kv Hin. apply (H (k, v) kv); [left; reflexivity|exact Hin].
+Qed.
+
+(* ---- text --------------------------------------------------------------------------------- *)
+
+Definition not_tag (x : res (token * pos)) : Prop :=
+  match x with
+  | Ok (tk, _) => tty tk <> TStart /\ tty tk <> TEndBegin
+  | Syn _ _ _ => True
+  | Oob => False
+  | Fuel => False
+  end.
+
+Definition plain_space (x : Z) : Prop := is_space x = true /\ x <> 13 /\ x <> 10.
+
+Lemma skipSp_spaces : forall sp c r o l s, Forall plain_space sp ->
+  is_space c = false -> c <> 60 ->
+  exists o', skipSp false (sp ++ c :: r) o l s = Ok (mkPos (c :: r) o' l s).
+Proof.
+  induction sp as [|x sp IH]; intros c r o l s F Hc H60.
+  - exists o. cbn [app]. apply skipSp_stay; try assumption; intro; subst; discriminate.
+  - inversion F as [|? ? [Hs [H13 H10]] F']; subst. cbn [app]. rewrite skipSp_space by assumption.
+    apply IH; assumption.
+Qed.
+
+Lemma readName_class : forall q, In 0 (rest q) -> not_tag (readName q).
+Proof.
+  intros q H0. unfold readName.
+  destruct (scan_ok name_stop (rest q) H0) as (a & c & b & S & _). rewrite S.
+  destruct a; cbn [not_tag tty]; [unfold synAt; exact I|split; discriminate].
+Qed.
+
+(* the look-ahead token in front of a text node: whatever it is, it is neither "<" nor "</" *)
+Lemma lookahead_text : forall p sp c r, rest p = sp ++ c :: r -> Forall plain_space sp ->
+  is_space c = false -> c <> 60 -> c <> 0 -> In 0 r -> not_tag (readToken p).
+Proof.
+  intros [r0 o l s] sp c r R F Hc H60 H0 I0. cbn [rest] in R. subst r0.
+  unfold readToken, skipSpace. cbn [rest off line ls].
+  destruct (skipSp_spaces sp c r o l s F Hc H60) as (o' & E). rewrite E. cbn [bind rest].
+  neqb H60.
+  destruct (c =? 62) eqn:E62; [cbn [not_tag tty]; split; discriminate|].
+  neqb H0.
+  destruct (c =? 61) eqn:E61; [cbn [not_tag tty]; split; discriminate|].
+  assert (I0' : In 0 (c :: r)) by (right; exact I0).
+  destruct ((c =? 34) || (c =? 39)) eqn:Eq.
+  { destruct (scan_ok (fun x => (x =? c) || (x =? 13) || (x =? 10)) r I0) as (a & e & b & S & _). rewrite S.
+    destruct (e =? 0); [unfold synAt; exact I|].
+    destruct (negb (e =? c)); [unfold synAt; exact I|]. cbn [not_tag tty]. split; discriminate. }
+  destruct (c =? 47) eqn:E47.
+  { destruct r as [|c1 r2]; [exfalso; exact I0|].
+    destruct (c1 =? 62); [cbn [not_tag tty]; split; discriminate|].
+    apply readName_class. exact I0'. }
+  apply readName_class. exact I0'.
+Qed.
+
+Lemma parseContent_text : forall f acc p, not_tag (readToken p) ->
+  parseContent (S f) acc p = (do x <- parseText p; parseContent f (T (fst x) :: acc) (snd x)).
+Proof.
+  intros f acc p H. cbn [parseContent].
+  destruct (readToken p) as [[tk q]| | |]; cbn [not_tag] in H; try contradiction; [|reflexivity].
+  destruct H as [H1 H2]. destruct (tty tk); try reflexivity; congruence.
+Qed.
+
+Lemma scanText_plain : forall et z o l s, forallb safe_out et = true ->
+  exists o', scanText (et ++ 60 :: z) o l s = Ok (et, mkPos (60 :: z) o' l s).
+Proof.
+  induction et as [|x et IH]; intros z o l s H.
+  - exists o. reflexivity.
+  - cbn [forallb] in H. apply andb_prop in H. destruct H as [Hx H].
+    assert (X0 : x <> 0) by (unfold safe_out in Hx; lia).
+    assert (X60 : x <> 60) by (unfold safe_out in Hx; lia).
+    assert (X13 : x <> 13) by (unfold safe_out in Hx; lia).
+    assert (X10 : x <> 10) by (unfold safe_out in Hx; lia).
+    cbn [app scanText]. neqb X0. neqb X60. neqb X13. neqb X10.
+    destruct (IH z (o + 1) l s H) as (o' & E). rewrite E. exists o'. reflexivity.
+Qed.
+
+Lemma escape_cons : forall c v, escape (c :: v) = esc_byte c ++ escape v.
+Proof. reflexivity. Qed.
+
+(* the escaped form of a non-blank text: plain spaces, then a byte that is not white space *)
+Lemma escape_nonblank : forall t, wf_value t = true -> blank t = false ->
+  exists sp c r, escape t = sp ++ c :: r /\ Forall plain_space sp /\ is_space c = false /\ c <> 60 /\ c <> 0.
+Proof.
+  induction t as [|x t IH]; intros W B; [discriminate|].
+  unfold wf_value in W. cbn [forallb] in W. apply andb_prop in W. destruct W as [Wx W].
+  unfold blank in B. cbn [forallb] in B.
+  pose proof (esc_space_all x Wx) as Es. unfold esc_space_ok in Es.
+  destruct (codec_ok_all x Wx) as [_ Eo]. unfold esc_out_ok in Eo.
+  rewrite escape_cons.
+  destruct (is_space x) eqn:Sx.
+  - cbn [andb] in B. destruct ((x =? 10) || (x =? 13)) eqn:Enl.
+    + (* a line break: escaped, starts with '&' *)
+      destruct (esc_byte x) as [|y yr] eqn:Eb.
+      * exfalso. destruct (codec_ok_all x Wx) as [Ck _]. unfold codec_ok in Ck. rewrite Eb in Ck. discriminate.
+      * destruct (codec_ok_all x Wx) as [Ck _]. unfold codec_ok in Ck. rewrite Eb in Ck.
+        destruct yr as [|y2 yr'].
+        -- exfalso. apply andb_prop in Ck. destruct Ck as [C1 _]. apply Z.eqb_eq in C1. subst y.
+           cbn [forallb] in Eo. lia.
+        -- apply andb_prop in Ck. destruct Ck as [C1 _]. apply Z.eqb_eq in C1. subst y.
+           exists [], 38, ((y2 :: yr') ++ escape t). cbn [app]. repeat split; try constructor; discriminate.
+    + apply list_eqb_eq in Es. rewrite Es.
+      destruct (IH W B) as (sp & c & r & E & F & Hc & H60 & H0).
+      exists (x :: sp), c, r. cbn [app]. rewrite E. repeat split; try assumption.
+      constructor; [|exact F]. apply orb_false_elim in Enl. destruct Enl as [E10 E13].
+      unfold plain_space. apply Z.eqb_neq in E10. apply Z.eqb_neq in E13. tauto.
+  - destruct (esc_byte x) as [|y yr] eqn:Eb; [discriminate|].
+    exists [], y, (yr ++ escape t). cbn [app]. cbn [forallb] in Eo. repeat split; try constructor.
+    + apply negb_true_iff. exact Es.
+    + lia.
+    + lia.
+Qed.
+
+Lemma escape_text_len : forall t, wf_text t = true -> (0 < length (escape t))%nat.
+Proof.
+  intros t W. unfold wf_text in W. apply andb_prop in W. destruct W as [Wv Wb]. apply negb_true_iff in Wb.
+  destruct (escape_nonblank t Wv Wb) as (sp & c & r & E & _). rewrite E. rewrite app_length. cbn [length]. lia.
+Qed.
+
+(* layer 2 for text: a non-blank text in front of '<' is read back exactly *)
+Lemma text_rt : forall f acc p t z, wf_text t = true -> rest p = escape t ++ 60 :: z -> In 0 z ->
+  exists q, parseContent (S f) acc p = parseContent f (T t :: acc) q /\ rest q = 60 :: z.
+Proof.
+  intros f acc [r0 o l s] t z W R I0. cbn [rest] in R. subst r0.
+  unfold wf_text in W. apply andb_prop in W. destruct W as [Wv Wb]. apply negb_true_iff in Wb.
+  destruct (escape_nonblank t Wv Wb) as (sp & c & r & E & F & Hc & H60 & H0).
+  rewrite parseContent_text.
+  2:{ apply (lookahead_text _ sp c (r ++ 60 :: z)); try assumption.
+      - cbn [rest]. rewrite E. rewrite <- app_assoc. reflexivity.
+      - apply in_or_app. right. right. exact I0. }
+  unfold parseText. cbn [rest off line ls].
+  assert (Hhd : exists y yr, escape t ++ 60 :: z = y :: yr /\ y <> 60).
+  { rewrite E. destruct sp as [|x sp'].
+    - exists c, (r ++ 60 :: z). split; [reflexivity|exact H60].
+    - exists x, ((sp' ++ c :: r) ++ 60 :: z). split; [reflexivity|].
+      inversion F as [|? ? [Hs _] _]; subst. intro; subst; discriminate. }
+  destruct Hhd as (y & yr & Ey & Hy). rewrite Ey. neqb Hy. cbn [bind rest off line ls]. rewrite <- Ey.
+  destruct (scanText_plain (escape t) z o l s (escape_safe t Wv)) as (o' & Es). rewrite Es. cbn [bind fst snd].
+  rewrite (unescape_escape t Wv).
+  eexists. split; [reflexivity|reflexivity].
+Qed.
+
+(* ---- layer 3: elements and content -------------------------------------------------------- *)
+
+Section NodeInd.
+  Variable P : node -> Prop.
+  Hypothesis HNul : P Nul.
+  Hypothesis HT : forall t, P (T t).
+  Hypothesis HN : forall l c nm at_ ct, Forall P ct -> P (N l c nm at_ ct).
+  Fixpoint node_ind' (n : node) : P n :=
+    match n with
+    | Nul => HNul
+    | T t => HT t
+    | N l c nm at_ ct =>
+      HN l c nm at_ ct ((fix go (ct : list node) : Forall P ct :=
+                           match ct with
+                           | [] => Forall_nil P
+                           | x :: r => Forall_cons x (node_ind' x) (go r)
+                           end) ct)
+    end.
+End NodeInd.
+
+(* the serialised element without its leading '<' *)
+Definition body_str (nm : bytes) (at_ : list (bytes * bytes)) (ct : list node) : list Z :=
+  nm ++ flat_map attr_str at_ ++
+  match ct with
+  | [] => [47; 62]
+  | _ => [62] ++ flat_map toStr ct ++ [60; 47] ++ nm ++ [62]
+  end.
+
+Lemma toStr_N : forall l c nm at_ ct, toStr (N l c nm at_ ct) = 60 :: body_str nm at_ ct.
+Proof. intros. unfold body_str. cbn [toStr app]. reflexivity. Qed.
+
+Definition elem_rt_prop (e : node) : Prop :=
+  match e with
+  | N _ _ nm at_ ct =>
+    wf_node e = true ->
+    forall tail f tp p,
+      rest p = body_str nm at_ ct ++ tail -> In 0 tail -> (2 * length (rest p) + 1 <= f)%nat ->
+      exists e' q, parseElement f tp p = Ok (e', q) /\ rest q = tail /\ erase e' = erase e
+  | _ => True
+  end.
+
+Lemma wf_node_N : forall l c nm at_ ct, wf_node (N l c nm at_ ct) = true ->
+  wf_name nm = true /\ forallb wf_attr at_ = true /\ distinct_keys at_ = true /\
+  no_adjacent_text ct = true /\ forallb wf_node ct = true.
+Proof.
+  intros l c nm at_ ct H. cbn [wf_node] in H.
+  apply andb_prop in H. destruct H as [H H5]. apply andb_prop in H. destruct H as [H H4].
+  apply andb_prop in H. destruct H as [H H3]. apply andb_prop in H. destruct H as [H1 H2].
+  repeat split; assumption.
+Qed.
+
+(* what follows a text node starts with '<' *)
+Lemma after_text_lt : forall t ct z, no_adjacent_text (T t :: ct) = true -> forallb wf_node ct = true ->
+  exists w, flat_map toStr ct ++ 60 :: 47 :: z = 60 :: w.
+Proof.
+  intros t [|x ct] z NA W.
+  - exists (47 :: z). reflexivity.
+  - cbn [no_adjacent_text is_text andb] in NA. apply andb_prop in NA. destruct NA as [NA _].
+    cbn [forallb] in W. apply andb_prop in W. destruct W as [Wx _].
+    destruct x as [|t'|l c nm at_ ct']; [discriminate|discriminate|].
+    cbn [flat_map]. rewrite toStr_N. eexists. cbn [app]. reflexivity.
+Qed.
+
+Lemma no_adjacent_tail : forall x ct, no_adjacent_text (x :: ct) = true -> no_adjacent_text ct = true.
+Proof.
+  intros x [|y ct] H; [reflexivity|]. cbn [no_adjacent_text] in H. apply andb_prop in H. tauto.
+Qed.
+
+Lemma content_rt : forall ct, Forall elem_rt_prop ct -> forallb wf_node ct = true -> no_adjacent_text ct = true ->
+  forall acc f p z, rest p = flat_map toStr ct ++ 60 :: 47 :: z -> In 0 z -> (2 * length (rest p) + 2 <= f)%nat ->
+  exists ct' q, parseContent f acc p = Ok (rev acc ++ ct', q) /\ rest q = z /\ map erase ct' = map erase ct.
+Proof.
+  induction ct as [|x ct IH]; intros FA W NA acc f p z R I0 Hf.
+  - cbn [flat_map app] in R. destruct f as [|f]; [lia|]. cbn [parseContent].
+    destruct (readToken_end_begin p z R) as (tk & q & E & Ty & Rq). rewrite E, Ty.
+    exists [], q. rewrite app_nil_r. auto.
+  - inversion FA as [|? ? Px FA']; subst.
+    cbn [forallb] in W. apply andb_prop in W. destruct W as [Wx W].
+    pose proof (no_adjacent_tail _ _ NA) as NA'.
+    cbn [flat_map] in R. rewrite <- app_assoc in R.
+    destruct f as [|f]; [lia|].
+    destruct x as [|t|l c nm at_ ct0]; [discriminate| |].
+    + (* text *)
+      cbn [toStr wf_node] in R, Wx.
+      destruct (after_text_lt t ct z NA W) as (w & Ew). rewrite Ew in R.
+      assert (I0w : In 0 w).
+      { assert (X : In 0 (60 :: w)). { rewrite <- Ew. apply in_or_app. right. right. right. exact I0. }
+        destruct X as [X|X]; [discriminate|exact X]. }
+      destruct (text_rt f acc p t w Wx R I0w) as (q & E & Rq). rewrite E.
+      rewrite <- Ew in Rq.
+      destruct (IH FA' W NA' (T t :: acc) f q z Rq I0) as (ct' & q' & E' & Rq' & Er).
+      { rewrite Rq. rewrite R in Hf. rewrite Ew. rewrite app_length in Hf. pose proof (escape_text_len t Wx). lia. }
+      exists (T t :: ct'), q'. rewrite E'. cbn [rev]. rewrite <- app_assoc. cbn [app map erase].
+      split; [reflexivity|]. split; [exact Rq'|]. f_equal. exact Er.
+    + (* child element *)
+      rewrite toStr_N in R. cbn [app] in R.
+      destruct (wf_node_N _ _ _ _ _ Wx) as (Wnm & _).
+      destruct (wf_name_split nm Wnm) as (x0 & nm' & Enm & Hx0 & _).
+      assert (Rb : exists w, body_str nm at_ ct0 ++ flat_map toStr ct ++ 60 :: 47 :: z = x0 :: w).
+      { unfold body_str. rewrite Enm. cbn [app]. eexists. reflexivity. }
+      destruct Rb as (w & Ew).
+      cbn [parseContent].
+      assert (R' : rest p = 60 :: x0 :: w) by (rewrite R, Ew; reflexivity).
+      destruct (readToken_start p x0 w R' Hx0) as (tk & q & E & Ty & Rq). rewrite E, Ty.
+      rewrite <- Ew in Rq.
+      cbn [elem_rt_prop] in Px.
+      destruct (Px Wx (flat_map toStr ct ++ 60 :: 47 :: z) f (tpos tk) q Rq) as (e' & q1 & E1 & Rq1 & Er1).
+      { apply in_or_app. right. right. right. exact I0. }
+      { rewrite Rq. rewrite R in Hf. cbn [length] in Hf. lia. }
+      rewrite E1. cbn [bind fst snd].
+      destruct (IH FA' W NA' (e' :: acc) f q1 z Rq1 I0) as (ct' & q' & E' & Rq' & Er).
+      { rewrite Rq1. rewrite R in Hf. cbn [length] in Hf. rewrite app_length in Hf. lia. }
+      exists (e' :: ct'), q'. rewrite E'. cbn [rev]. rewrite <- app_assoc. cbn [app map].
+      split; [reflexivity|]. split; [exact Rq'|]. f_equal; assumption.
+Qed.
+
+Lemma closeTag_rt : forall nm p z, wf_name nm = true -> rest p = nm ++ 62 :: z ->
+  exists q, closeTag nm p = Ok q /\ rest q = z.
+Proof.
+  intros nm p z W R. unfold closeTag.
+  destruct (readToken_name p nm 62 z R W eq_refl) as (tk & q & E & Ty & Tv & Rq). rewrite E. cbn [bind]. rewrite Ty, Tv.
+  rewrite list_eqb_refl. cbn [negb].
+  destruct (readToken_gt q z Rq) as (tk1 & q1 & E1 & Ty1 & Rq1). rewrite E1. cbn [bind]. rewrite Ty1.
+  exists q1. auto.
+Qed.
+
+Lemma elem_rt : forall e, elem_rt_prop e.
+Proof.
+  apply node_ind'; [exact I|intros; exact I|].
+  intros l c nm at_ ct FA. cbn [elem_rt_prop]. intros Wf tail f tp p R I0 Hf.
+  destruct (wf_node_N _ _ _ _ _ Wf) as (Wnm & Wat & Dk & NA & Wct).
+  destruct f as [|f]; [lia|]. cbn [parseElement].
+  (* the name, and the byte that ends it *)
+  assert (Hstop : exists c0 w, flat_map attr_str at_ ++
+            (match ct with [] => [47; 62] | _ => [62] ++ flat_map toStr ct ++ [60; 47] ++ nm ++ [62] end) ++ tail = c0 :: w
+            /\ name_stop c0 = true).
+  { destruct at_ as [|[k v] at'].
+    - destruct ct; cbn [flat_map app]; eexists; eexists; split; reflexivity.
+    - cbn [flat_map]. rewrite <- app_assoc. rewrite attr_str_app. eexists. eexists. split; reflexivity. }
+  destruct Hstop as (c0 & w & Ew & Hc0).
+  assert (R1 : rest p = nm ++ c0 :: w).
+  { rewrite R. unfold body_str. rewrite <- !app_assoc. rewrite <- Ew. reflexivity. }
+  destruct (readToken_name p nm c0 w R1 Wnm Hc0) as (tk & q & E & Ty & Tv & Rq). rewrite E. cbn [bind]. rewrite Ty.
+  rewrite <- Ew in Rq.
+  assert (Hat : fold_left (fun a kv => attr_append (fst kv) (snd kv) a) at_ [] = at_).
+  { rewrite attrs_fold; [reflexivity|exact Dk|]. intros kv kv' _ []. }
+  assert (Lq : (length (rest q) < length (rest p))%nat).
+  { rewrite R1, Rq, Ew. rewrite app_length. destruct (wf_name_split nm Wnm) as (x0 & nm' & -> & _). cbn [length]. lia. }
+  destruct ct as [|x ct].
+  - destruct (attrs_rt at_ [] (length (rest q)) q AEmpty ([47; 62] ++ tail) tail Wat Rq) as (q1 & E1 & Rq1).
+    { left. split; reflexivity. }
+    { lia. }
+    rewrite E1. cbn [bind]. rewrite Hat. rewrite Tv.
+    eexists. exists q1. split; [reflexivity|]. split; [exact Rq1|reflexivity].
+  - remember (x :: ct) as ct1.
+    set (z1 := flat_map toStr ct1 ++ 60 :: 47 :: (nm ++ 62 :: tail)).
+    assert (Rq' : rest q = flat_map attr_str at_ ++ 62 :: z1).
+    { rewrite Rq. unfold z1. repeat (rewrite <- app_assoc || (progress cbn [app])). reflexivity. }
+    destruct (attrs_rt at_ [] (length (rest q)) q AOpen (62 :: z1) z1 Wat Rq') as (q1 & E1 & Rq1).
+    { right. split; reflexivity. }
+    { lia. }
+    rewrite E1. cbn [bind]. rewrite Hat. rewrite Tv.
+    assert (I0' : In 0 (nm ++ 62 :: tail)) by (apply in_or_app; right; right; exact I0).
+    destruct (content_rt ct1 FA Wct NA [] f q1 (nm ++ 62 :: tail) Rq1 I0') as (ct' & q2 & E2 & Rq2 & Er).
+    { rewrite Rq1. rewrite Rq' in Lq. rewrite app_length in Lq. cbn [length] in Lq. lia. }
+    rewrite E2. cbn [bind rev app].
+    destruct (closeTag_rt nm q2 tail Wnm Rq2) as (q3 & E3 & Rq3). rewrite E3. cbn [bind].
+    eexists. exists q3. split; [reflexivity|]. split; [exact Rq3|]. cbn [erase]. f_equal. exact Er.
+Qed.
+
+(* ---- the header the serialiser writes, and the whole round trip --------------------------- *)
+
+Definition hdr_body : list Z := firstn (length gen_header - 5) (skipn 2 gen_header).
+
+(* the regenerated header literal is "<?" body "?>" LF with no '?', CR, LF or NUL in the body *)
+Lemma header_split : gen_header = [60; 63] ++ hdr_body ++ [63; 62; 10].
+Proof. vm_compute. reflexivity. Qed.
+
+Lemma hdr_body_ok : forallb (fun x => negb (x =? 0) && negb (pi_stop x)) hdr_body = true.
+Proof. vm_compute. reflexivity. Qed.
+
+Lemma hdr_body_forall : Forall (fun x => x <> 0 /\ pi_stop x = false) hdr_body.
+Proof.
+  pose proof hdr_body_ok as H. rewrite forallb_forall in H. apply Forall_forall. intros x Hx.
+  specialize (H x Hx). apply andb_prop in H. destruct H as [H1 H2].
+  apply negb_true_iff in H1. apply negb_true_iff in H2. apply Z.eqb_neq in H1. tauto.
+Qed.
+
+Lemma skipSp_lf : forall r o l s, skipSp false (10 :: r) o l s = skipSp false r (o + 1) (l + 1) (o + 1).
+Proof. reflexivity. Qed.
+
+Lemma piBody_close : forall f start p a z, (0 < f)%nat -> rest p = a ++ 63 :: 62 :: z ->
+  Forall (fun x => x <> 0 /\ pi_stop x = false) a -> piBody f start p = Ok (adv p (zlen a + 2) z).
+Proof.
+  intros [|f] start p a z Hf R F; [lia|]. cbn [piBody]. rewrite R.
+  rewrite (scan_app pi_stop a 63 (62 :: z) F (or_intror eq_refl)). cbn [Z.eqb Pos.eqb]. reflexivity.
+Qed.
+
+Lemma text_shape : forall l c nm at_ ct,
+  (gen_header ++ toStr (N l c nm at_ ct)) ++ [0] =
+  60 :: 63 :: hdr_body ++ 63 :: 62 :: 10 :: 60 :: (body_str nm at_ ct ++ [0]).
+Proof.
+  intros. rewrite header_split, toStr_N. repeat (rewrite <- app_assoc || (progress cbn [app])). reflexivity.
+Qed.
+
+Lemma roundtrip_ok : forall e, wf_tree e = true -> exists e', parse (toString e) = Ok e' /\ erase e' = erase e.
+Proof.
+  intros [|t|l c nm at_ ct] W; try discriminate. cbn [wf_tree] in W.
+  destruct (wf_node_N _ _ _ _ _ W) as (Wnm & _).
+  destruct (wf_name_split nm Wnm) as (x0 & nm' & Enm & Hx0 & _).
+  destruct (name_char_facts x0 Hx0) as (X0 & Xs & X60 & X62 & X61 & X34 & X39 & X47 & X33 & X63 & Xsp & X13 & X10 & X32).
+  assert (Eb : exists w, body_str nm at_ ct ++ [0] = x0 :: w).
+  { unfold body_str. rewrite Enm. cbn [app]. eexists. reflexivity. }
+  destruct Eb as (w & Ew).
+  unfold parse. set (F := fuel_for (toString (N l c nm at_ ct))).
+  assert (HF : (2 * length (body_str nm at_ ct ++ [0%Z]) + 1 <= F)%nat).
+  { unfold F, fuel_for, toString. rewrite toStr_N. rewrite !app_length. cbn [length]. lia. }
+  unfold toString. rewrite text_shape. rewrite Ew in *.
+  unfold parseFrom.
+  (* skipSpace at "<?" *)
+  unfold skipSpace at 1. cbn [rest off line ls]. rewrite skipSp_lt_stay by discriminate. cbn [bind].
+  (* the processing instruction *)
+  cbn [length]. cbn [prolog rest]. cbn [Z.eqb Pos.eqb].
+  rewrite (piBody_close _ _ _ hdr_body (10 :: 60 :: x0 :: w)); [|rewrite app_length; cbn [length]; lia|reflexivity|exact hdr_body_forall].
+  cbn [bind]. unfold skipSpace at 1. cbn [adv rest off line ls].
+  rewrite skipSp_lf. rewrite skipSp_lt_stay by assumption. cbn [bind].
+  (* no second processing instruction *)
+  rewrite app_length. cbn [length]. rewrite Nat.add_succ_r. cbn [prolog rest]. cbn [Z.eqb Pos.eqb]. neqb X63. cbn [bind].
+  (* the root element *)
+  match goal with |- context [readToken ?p] =>
+    destruct (readToken_start p x0 w eq_refl Hx0) as (tk & q & E & Ty & Rq) end.
+  rewrite E. cbn [bind]. rewrite Ty.
+  pose proof (elem_rt (N l c nm at_ ct)) as P. cbn [elem_rt_prop] in P.
+  rewrite <- Ew in Rq.
+  destruct (P W [0] F (tpos tk) q Rq) as (e' & q1 & E1 & _ & Er).
+  { left. reflexivity. }
+  { rewrite Rq, Ew. exact HF. }
+  rewrite E1. cbn [bind fst]. exists e'. split; [reflexivity|exact Er].
+Qed.
